@@ -2395,13 +2395,35 @@ impl<T: TypeConfig> LeaderState<T> {
         new_commit: u64,
     ) {
         // split_off returns the sub-map with keys > new_commit; we keep that for later.
-        let remaining = if new_commit < u64::MAX {
+        let mut remaining = if new_commit < u64::MAX {
             self.pending_client_writes.split_off(&(new_commit + 1))
         } else {
             BTreeMap::new()
         };
+        // A batch is keyed by its end index. When the commit index lands inside a batch, the
+        // committed prefix is released now: its entries are applied right away, and their apply
+        // results would otherwise find no sender and those clients would never be answered.
+        let mut committed_prefix: Option<(u64, WriteMetadata)> = None;
+        if let Some(mut first) = remaining.first_entry() {
+            let meta = first.get_mut();
+            if meta.start_idx <= new_commit {
+                let n = ((new_commit - meta.start_idx + 1) as usize).min(meta.senders.len());
+                let rest = meta.senders.split_off(n);
+                let head = std::mem::replace(&mut meta.senders, rest);
+                committed_prefix = Some((
+                    new_commit,
+                    WriteMetadata {
+                        start_idx: meta.start_idx,
+                        senders: head,
+                        wait_for_apply: meta.wait_for_apply,
+                        deadline: meta.deadline,
+                    },
+                ));
+                meta.start_idx = new_commit + 1;
+            }
+        }
         let committed = std::mem::replace(&mut self.pending_client_writes, remaining);
-        for (_, meta) in committed {
+        for (_, meta) in committed.into_iter().chain(committed_prefix) {
             let (start_idx, senders, wait_for_apply) =
                 (meta.start_idx, meta.senders, meta.wait_for_apply);
             if wait_for_apply {
